@@ -326,9 +326,9 @@ Proof.
   intros Hs Hb Ha.
   destruct (sk_eq_inv _ _ Hs) as (Hs1 & Hs2 & _).
   destruct (sk_eq_inv _ _ Hb) as (Hb1 & _).
-  destruct (sk_eq_inv _ _ Ha) as (Ha1 & _).
-  unfold space_after, is_in_kw, bracket_change.
-  rewrite Hs1, Hs2, Hb1, Ha1. reflexivity.
+  destruct (sk_eq_inv _ _ Ha) as (Ha1 & Ha2 & _).
+  unfold space_after, is_in_kw, bracket_change, ident_continues_number.
+  rewrite Hs1, Hs2, Hb1, Ha1, Ha2. reflexivity.
 Qed.
 
 (* --- split_lines ---------------------------------------------------------- *)
